@@ -445,7 +445,9 @@ class WebSocketApp:
                 data = frame.data
                 if op_code == ABNF.OPCODE_TEXT and not skip_utf8_validation:
                     data = data.decode("utf-8")
-                self._callback(self.on_data, data, frame.opcode, True)
+                # op_code is the type of the message (frame.opcode is the opcode of
+                # its last frame: CONT when the message arrived in fragments)
+                self._callback(self.on_data, data, op_code, True)
                 self._callback(self.on_message, data)
 
             return True
